@@ -66,6 +66,16 @@ manifest = {
     "notes": "One entry point (./check <ID>). Every check: TLC model-checks the TLA+ spec of the area, exports the bounded input space/behaviours, replays them into the real pkgcore objects, and validates the recorded observations with the *_Trace spec. known_findings.json lists fixed/known defects.",
     "not_applicable": na,
 }
+# growth specs: areas of pkgcore no listed property names (DESIGN.md section 7 / 11.7); run with ./check G0N
+import glob
+for mp in sorted(glob.glob(os.path.join(HERE, "meta", "G[0-9][0-9].json"))):
+    gid = os.path.basename(mp)[:-5]
+    if gid not in approved:
+        continue
+    m = json.load(open(mp))
+    drv = (glob.glob(os.path.join(HERE, "drivers", gid.lower() + "_*.py")) or ["?"])[0]
+    manifest["engines"].append({"name": f"growth:{gid}", "path": os.path.relpath(drv, HERE), "serves_properties": m.get("serves", []),
+                                "kind_free_text": f"{m.get('title', gid)} — growth spec beyond the listed properties; `./check {gid} --tier quick|thorough`, evidence/{gid}.json. " + m["text"][:600]})
 with open(os.path.join(HERE, "MANIFEST.json"), "w") as f:
     json.dump(manifest, f, indent=1)
 print(f"MANIFEST.json: {len(checks)} checks, {len(na)} not claimed")
